@@ -31,7 +31,39 @@ def install_engine_guards():
         ControlFlowException.__init__ = __init__
     except ImportError:
         pass
+    _concrete_dict_copies()
     quiet_logging()
+
+
+def _concrete_dict_copies():
+    """dict(<real dict with real keys>) stays a real dict under the engine.
+
+    CrossHair intercepts every call of `dict` and returns its own dict model (ShellMutableMap over a linear SimpleDict),
+    even when the argument is an ordinary concrete dict - unlike `d.copy()` or `{**d}`, which stay real. The model is
+    only needed for symbolic containers / keys; on concrete ones it multiplies paths (observed: 25 -> >180, never
+    exhausted) for a copy that has one possible result. Symbolic arguments still go to the engine's model.
+    """
+    try:
+        import crosshair.core_and_libs  # noqa: F401  (registers the library patches)
+        from crosshair.core import _PATCH_REGISTRATIONS
+        from crosshair.tracers import NoTracing
+    except ImportError:
+        return
+    engine_dict = _PATCH_REGISTRATIONS.get(dict)
+    if engine_dict is None:
+        return
+    _missing = object()
+
+    def _dict(arg=_missing, **kwargs):
+        if arg is not _missing and not kwargs:
+            with NoTracing():
+                plain = type(arg) is dict and all(type(k) in (str, int, bool, bytes, float, type(None)) for k in arg)
+                if plain:
+                    return dict.copy(arg)
+        if arg is _missing:
+            return engine_dict(**kwargs)
+        return engine_dict(arg, **kwargs)
+    _PATCH_REGISTRATIONS[dict] = _dict
 
 
 def quiet_logging():
